@@ -86,6 +86,7 @@ class C05(Prop):
     id = "C05"
     trace_module = "TraceStab"
     trace_cfg = "TraceStab.cfg"
+    suite_family = ('stab', ('steps',))
     backends = ("py",)
     chunk = 100
     assumptions = [
